@@ -577,6 +577,8 @@ class SpecEval(object):
                     return VInt(len(v.items))
                 if isinstance(v, VRef) and isinstance(e.st.heap[v.ref], HList) and e.st.heap[v.ref].seq is None:
                     return VInt(0)
+                if isinstance(v, VRef) and isinstance(e.st.heap[v.ref], HDict) and e.st.heap[v.ref].ktype is None:
+                    return VInt(0)
                 s, _ = as_seq(v, e.st)
                 return VInt(z3.Length(s))
             if f == 'implies':
@@ -617,6 +619,23 @@ class SpecEval(object):
                 if f == 'forall':
                     return VBool(z3.ForAll([iv], z3.Implies(rng, body)))
                 return VBool(z3.Exists([iv], z3.And(rng, body)))
+            if f in ('keys', 'mapof'):
+                v = self.ev(n.args[0], e)
+                if isinstance(v, VOpt):
+                    v = v.val
+                h = v if isinstance(v, VDictVal) else e.st.heap[v.ref]
+                if h.ktype is None:      # untyped {} literal: empty (bytes -> bytes by default)
+                    if f == 'keys':
+                        return VSeq(z3.Empty(z3.SeqSort(String)), 'bytes')
+                    return VRawTerm(z3.K(String, z3.StringVal('')))
+                if f == 'keys':
+                    return VSeq(h.keys, h.ktype)
+                return VRawTerm(h.maps[0])
+            if f == 'store':
+                m_ = self.ev(n.args[0], e)
+                k_ = self.ev(n.args[1], e)
+                v_ = self.ev(n.args[2], e)
+                return VRawTerm(z3.Store(m_.t, term_of(k_), term_of(v_)))
             if f == 'evid':
                 # identity of a message value: an opaque event is its own id; an acknowledgement
                 # dict literal {'event_name': N} is identified by 1000000 + N
@@ -684,7 +703,9 @@ class SpecEval(object):
                 args = [self.ev(a, e) for a in n.args]
                 terms = []
                 for a in args:
-                    if isinstance(a, VRef):
+                    if isinstance(a, VRawTerm):
+                        terms.append(a.t)
+                    elif isinstance(a, VRef):
                         s, _ = as_seq(a, e.st)
                         terms.append(s)
                     elif isinstance(a, VOpt):
@@ -736,6 +757,14 @@ class SpecEval(object):
         if isinstance(hn, HDict):
             return z3.And([hn.keys == ho.keys] + [a == b for a, b in zip(hn.maps, ho.maps)])
         return z3.BoolVal(new.ref == old.ref)
+
+
+class VRawTerm(Val):
+    """a bare z3 term (e.g. the Array of a dict) handed to a spec function"""
+    __slots__ = ('t',)
+
+    def __init__(self, t):
+        self.t = t
 
 
 class VOldRef(Val):
@@ -801,6 +830,8 @@ def merge_vals(c, a, b, st=None):
         return VTuple([merge_vals(c, x, y, st) for x, y in zip(a.items, b.items)])
     if isinstance(a, VPy) and isinstance(b, VPy) and a.obj is b.obj:
         return a
+    if isinstance(a, VRawTerm) and isinstance(b, VRawTerm):
+        return VRawTerm(z3.If(c, a.t, b.t))
     raise Unsupported('cannot merge %r / %r' % (a, b))
 
 
